@@ -107,7 +107,7 @@ func (l *c10Log) check() {
 
 // C10_Events: a node in a prefix state processes a sequence of symbolic events (digits of `seq`:
 // 0 PREPREPARE, 1 PREPARE, 2 COMMIT, 3 VIEW_CHANGE without proof, 4 election timeout, 5 re-delivery of
-// the previous message); the outbox invariants are checked after every step. An adversarial message
+// the previous message, 6 well-formed NEW_VIEW for the current or next view with a symbolic block); the outbox invariants are checked after every step. An adversarial message
 // without any influence ends the path (it leaves the state unchanged, so shorter runs cover it).
 func C10_Events() {
 	seq := env.Param("seq")
@@ -149,6 +149,23 @@ func C10_Events() {
 			n.timeout()
 		case 5:
 			raw = prev
+		case 6:
+			// a well-formed NEW_VIEW from the (possibly Byzantine) leader of the node's current or next view,
+			// backed by genuine proof-less votes of the three other members, proposing a block with a symbolic tag
+			cur := n.m.state.View()
+			v := cur + primitives.View(env.Choice("nv_view_offset", 2))
+			ldr := int(uint64(v) % 4)
+			if ldr == wd.me {
+				return
+			}
+			var votes []*interfaces.ViewChangeMessage
+			for j := 0; j < 4; j++ {
+				if j != wd.me {
+					votes = append(votes, wd.net.vcm(j, 1, v, nil))
+				}
+			}
+			blk := &stub.Block{H: 1, Tag: env.NondetU8("nv_tag"), ProposalOK: true}
+			raw = wd.net.nvm(ldr, 1, v, votes, blk).ToConsensusRawMessage()
 		}
 		if raw != nil {
 			n.deliver(raw)
